@@ -186,6 +186,12 @@ class Rule_CP01(BaseRule):
         # NOTE: this mutates the memory field.
         memory = context.memory
         self.logger.info("_handle_segment: %s, %s", segment, segment.get_type())
+        # Only a raw segment can be given a new raw. Some dialects parse a
+        # targeted type as a container of several tokens (e.g. the multi word
+        # special registers which db2 parses as a `bare_function`), the parts
+        # of which are handled as whatever they are themselves (e.g. keywords).
+        if not segment.is_raw():
+            return LintResult(memory=memory)
         # Config type hints
         self.ignore_words_regex: str
 
